@@ -2971,6 +2971,10 @@ def convert_conv_groups(op: Operation, arch, nng):
         # output is the concatenated tensor
         concat_op.set_output_tensor(op.ofm)  # will disconnect ofm from op
 
+        def conv_group_quant(values, start, end):
+            # per-channel parameters are split like the channels, a per-tensor parameter applies to every group
+            return values[..., start:end] if np.size(values) > 1 else values
+
         # for each conv group
         for i in range(num_conv_groups):
             # cg params
@@ -2991,14 +2995,16 @@ def convert_conv_groups(op: Operation, arch, nng):
             conv_group_op = Operation(op.type, f"{op.name}_cg{i}")
             conv_group_op.attrs = op.attrs.copy()
             conv_group_op.attrs["num_conv_groups"] = 1
+            # the fused activation function applies to every group
+            conv_group_op.activation = None if op.activation is None else op.activation.clone()
             # first input is the ifm
             conv_group_op.add_input_tensor(split_op_ofm_part)
             # second input is weights. the number of filters (i.e. the output channels) need to be split equally
             # across all of the convolution groups
             conv_group_op_weights_shape = op.weights.shape[:-1] + [num_filters_cg]
             conv_group_op_weights_quant = op.weights.quantization.clone()
-            conv_group_op_weights_quant.scale_f32 = op.weights.quantization.scale_f32[..., cg_oc_start:cg_oc_end]
-            conv_group_op_weights_quant.zero_point = op.weights.quantization.zero_point[..., cg_oc_start:cg_oc_end]
+            conv_group_op_weights_quant.scale_f32 = conv_group_quant(op.weights.quantization.scale_f32, cg_oc_start, cg_oc_end)
+            conv_group_op_weights_quant.zero_point = conv_group_quant(op.weights.quantization.zero_point, cg_oc_start, cg_oc_end)
             conv_group_op.add_input_tensor(
                 create_const_tensor(
                     f"{op.weights.name}_cg{i}",
@@ -3012,12 +3018,12 @@ def convert_conv_groups(op: Operation, arch, nng):
             # third input is bias. like the weights, the bias needs to be split equally across all of the convolution
             # groups
             if op.bias is None:
-                conv_group_op.add_input_tensor(None)
+                conv_group_op.inputs.append(None)
             else:
                 conv_group_op_bias_shape = op.bias.shape[:-1] + [num_filters_cg]
                 conv_group_op_bias_quant = op.bias.quantization.clone()
-                conv_group_op_bias_quant.scale_f32 = op.bias.quantization.scale_f32[..., cg_oc_start:cg_oc_end]
-                conv_group_op_bias_quant.zero_point = op.bias.quantization.zero_point[..., cg_oc_start:cg_oc_end]
+                conv_group_op_bias_quant.scale_f32 = conv_group_quant(op.bias.quantization.scale_f32, cg_oc_start, cg_oc_end)
+                conv_group_op_bias_quant.zero_point = conv_group_quant(op.bias.quantization.zero_point, cg_oc_start, cg_oc_end)
                 conv_group_op.add_input_tensor(
                     create_const_tensor(
                         f"{op.bias.name}_cg{i}",
